@@ -105,6 +105,15 @@ func (n *decoratorNode) Call(s containerStore) (err error) {
 	}
 
 	n.state = decoratorOnStack
+	defer func() {
+		// A decorator that did not complete (missing dependencies, failed
+		// arguments, an error or a panic) must run again the next time it
+		// is needed instead of being skipped as if it were still on the
+		// stack.
+		if n.state != decoratorCalled {
+			n.state = decoratorReady
+		}
+	}()
 
 	if err := shallowCheckDependencies(s, n.params); err != nil {
 		return errMissingDependencies{
